@@ -261,10 +261,16 @@ func runC15(op string) string {
 	}
 	var ret *error
 	if script != "close" {
+		// after a correct reply the call is expected to return by itself: give it time
+		// (bounded) before the peer disconnects; otherwise a short silence is enough
+		quiet := 60 * time.Millisecond
+		if script == "ok" || script == "extra" {
+			quiet = 3 * time.Second
+		}
 		select {
 		case e := <-resCh:
 			ret = &e
-		case <-time.After(60 * time.Millisecond):
+		case <-time.After(quiet):
 		}
 	}
 	peer.close()
